@@ -41,6 +41,8 @@ type Out struct {
 	RK   string `json:"rk,omitempty"`   // kind of the returned value: error text number boolean array object function datetime date time nil
 	RV   string `json:"rv,omitempty"`   // rendered value (prefix unless Full)
 	RL   int    `json:"rl,omitempty"`   // length of the rendered value in bytes
+	NC   string `json:"nc,omitempty"`   // number results: coefficient of the decimal
+	NE   int32  `json:"ne,omitempty"`   // number results: exponent of the decimal
 	Err  bool   `json:"err,omitempty"`  // Go error returned (Template/TemplateValue) or ok=false (session)
 	NErr int    `json:"nerr,omitempty"` // error events logged (session)
 	US   int64  `json:"us"`
@@ -89,6 +91,10 @@ func valueKind(v types.XValue) string {
 
 func describeValue(o *Out, v types.XValue, full bool) {
 	o.RK = valueKind(v)
+	if n, ok := v.(*types.XNumber); ok && n != nil {
+		o.NC = n.Native().Coefficient().String()
+		o.NE = n.Native().Exponent()
+	}
 	// rendering is part of evaluating a template (Evaluator.Template renders every value), so its cost and
 	// its panics count
 	r := types.Render(v)
@@ -160,6 +166,23 @@ func (w *workerState) handle(req *Req) Resp {
 				return
 			}
 			describeValue(o, opTable[req.Fn](w.env, args[0], args[1]), req.Full)
+		}))
+	case "lookup":
+		// resolveLookup through a parsed expression: c[l] or c.<name>, with c and l bound in the scope
+		resp.Out = append(resp.Out, guarded(func(o *Out) {
+			props := map[string]types.XValue{"c": req.Args[0].build(w.env)}
+			src := "c[l]"
+			if strings.HasPrefix(req.Fn, "dot:") {
+				src = "c." + req.Fn[4:]
+			} else {
+				props["l"] = req.Args[1].build(w.env)
+			}
+			parsed, err := excellent.Parse(src, nil)
+			if err != nil {
+				panic("harness: cannot parse " + src + ": " + err.Error())
+			}
+			v := parsed.Evaluate(w.env, excellent.NewScope(types.NewXObject(props), nil), &excellent.Warnings{})
+			describeValue(o, v, req.Full)
 		}))
 	case "tpl":
 		ctx := func() *types.XObject { return types.NewXObject(w.run.RootContext(w.env)) }
